@@ -364,11 +364,11 @@ def run_check(prop, level, fn):
 # ------------------------------------------------------------------------------------------
 # harness helpers
 # ------------------------------------------------------------------------------------------
-def _run_vh_one(binary, sub, records, timeout, env, args):
+def _run_vh_one(binary, sub, records, timeout, env, args, cwd=None):
     inp = "\n".join(json.dumps(r) for r in records) + "\n"
     cmd = [binary, sub] + (args or [])
     r = subprocess.run(cmd, input=inp, stdout=subprocess.PIPE, stderr=subprocess.PIPE, text=True,
-                       timeout=timeout, env=env)
+                       timeout=timeout, env=env, cwd=cwd)
     if r.returncode != 0:
         raise ToolError(f"{os.path.basename(binary)} {sub} failed rc={r.returncode}: {r.stderr[-3000:]}")
     out = []
@@ -379,7 +379,7 @@ def _run_vh_one(binary, sub, records, timeout, env, args):
     return out
 
 
-def run_vh(binary, sub, records, timeout=1800, env=None, args=None, jobs=1):
+def run_vh(binary, sub, records, timeout=1800, env=None, args=None, jobs=1, cwd=None):
     """Feed NDJSON records to `vh <sub>` on stdin (split over `jobs` processes), return the list
     of result objects; the last element is {"summary": {...}} with numeric fields summed.
     Record indices `i` reported by the harness are rebased to the caller's list."""
@@ -388,7 +388,7 @@ def run_vh(binary, sub, records, timeout=1800, env=None, args=None, jobs=1):
     n = (len(records) + jobs - 1) // jobs
     parts = [(k, records[k:k + n]) for k in range(0, len(records), n)]
     with ThreadPoolExecutor(max_workers=jobs) as ex:
-        outs = list(ex.map(lambda p: _run_vh_one(binary, sub, p[1], timeout, env, args), parts))
+        outs = list(ex.map(lambda p: _run_vh_one(binary, sub, p[1], timeout, env, args, cwd), parts))
     merged, summ = [], {}
     for (k, _), out in zip(parts, outs):
         for o in out:
